@@ -53,8 +53,8 @@ class C18(Prop):
                     'stub': ['multiprocessing.Queue/Process', 'threading.Thread/Lock/Event', 'queue.Queue', 'os.cpu_count/getpid', 'time (virtual clock)']}
     PROBES = ['line-preempt-run', 'clock-jumped', 'source-stalled', 'rowfunc-stalled', 'consumer-stalled', 'bypass-resource', 'default-num-processors',
               'empty-stream', 'nothing-selected', 'first-selected-late', 'workers>rows', 'two-parallelize-stages', 'rowfunc-raised', 'slow-worker-exit'] + ['strategy:' + x for x in sorted(set(STRATEGIES))]
-    TIERS = {'quick': dict(runs=4000, wall=100, run_wall=60),
-             'thorough': dict(runs=150000, wall=1700, run_wall=60)}
+    TIERS = {'quick': dict(runs=4000, wall=100, run_wall=300),
+             'thorough': dict(runs=150000, wall=1700, run_wall=600)}
     SHRINK_FROZEN = ()
 
     def generate(self, rng, tier):
